@@ -419,6 +419,9 @@ def check_oracle(dirname, oracles):
         if proc_res.failed:
             output[pid] = proc_res.stats
             continue
+        # The description of the injected error (the loop below overwrites
+        # stats['error'] when the well-typed program is rejected).
+        injected_err = proc_res.stats['error']
         for program, oracle in proc_res.stats['programs'].items():
             if oracle and program in failed:
                 # Here the program should be compiled successfully. However,
@@ -435,7 +438,8 @@ def check_oracle(dirname, oracles):
                                    oracle)
                 shutil.copytree(
                     os.path.join(cli_args.test_directory, 'tmp', str(pid)),
-                    os.path.join(cli_args.test_directory, str(pid)))
+                    os.path.join(cli_args.test_directory, str(pid)),
+                    dirs_exist_ok=True)
                 if stop:
                     print(proc_res.stats['error'])
                     sys.exit(1)
@@ -443,8 +447,12 @@ def check_oracle(dirname, oracles):
                 # Here, we have a case where we expected that the compiler
                 # would not be able to compile the program. However,
                 # the compiler managed to compile it successfully.
-                proc_res.stats['error'] = 'SHOULD NOT BE COMPILED: ' + \
-                    proc_res.stats['error']
+                error = 'SHOULD NOT BE COMPILED: ' + injected_err
+                if pid in output:
+                    # The well-typed variant of this program has been
+                    # rejected, too: keep both messages.
+                    error = proc_res.stats['error'] + '\n' + error
+                proc_res.stats['error'] = error
                 output[pid] = proc_res.stats
                 if cli_args.debug:
                     msg = 'Mismatch found in program {}. Expected to fail'
@@ -454,7 +462,8 @@ def check_oracle(dirname, oracles):
                                    oracle)
                 shutil.copytree(
                     os.path.join(cli_args.test_directory, 'tmp', str(pid)),
-                    os.path.join(cli_args.test_directory, str(pid)))
+                    os.path.join(cli_args.test_directory, str(pid)),
+                    dirs_exist_ok=True)
         shutil.rmtree(os.path.join(cli_args.test_directory, 'tmp',
                                    str(pid)))
     # Clear the directory of programs.
